@@ -113,7 +113,10 @@ pub(crate) fn signed_packet_to_hickory_records_without_origin(
         }
         // expect the z32 encoded pubkey as root name
         let name = &record.name;
-        if name.num_labels() < 1 {
+        // Count the labels ourselves: `Name::num_labels` does not count a leading
+        // wildcard label, which would strip one label too many below.
+        let label_count = name.iter().count();
+        if label_count < 1 {
             continue;
         }
         let zone = name.iter().next_back().unwrap().into_label()?;
@@ -124,8 +127,7 @@ pub(crate) fn signed_packet_to_hickory_records_without_origin(
             continue;
         }
 
-        let name_without_zone =
-            Name::from_labels(name.iter().take(name.num_labels() as usize - 1))?;
+        let name_without_zone = Name::from_labels(name.iter().take(label_count - 1))?;
         record.name = name_without_zone;
 
         let rrkey = RrKey::new(record.name.clone().into(), record.record_type());
